@@ -7,8 +7,8 @@
                             cipher.NewCTR panics otherwise, which the model makes explicit),
       [sha3], [keccak]      sha3.Sum256 and the legacy Keccak-256.
     Strings (names, passwords) are byte lists: Go strings are byte strings, and the
-    code converts with []byte(password).  A private key is its 32-byte serialisation
-    (btcec Serialize / PrivKeyFromBytes are inverse on 32-byte strings).
+    code converts with []byte(password).  A private key enters the model as its scalar D (what GenerateSecp256k1Key produced, what
+    ImportPrivateKey is given); it is stored as [ser32 D] and handed out as the 32 bytes read back.
 
     The key file is modelled after JSON decoding ([filedata]): json.Marshal /
     json.Unmarshal of the [encryptedKey] struct are taken as inverse; fields that the
@@ -34,6 +34,14 @@ Fixpoint bytes_eqb (a b : bytes) : bool :=
 (** Go slice expression l[lo:hi] on a slice with len = cap; [None] = run-time panic *)
 Definition slice (lo hi : nat) (l : bytes) : option bytes :=
   if Nat.leb hi (length l) then Some (firstn (hi - lo) (skipn lo l)) else None.
+
+(** crypto.EncodeSecp256k1PrivateKey = btcec Serialize: the scalar D as EXACTLY 32 big-endian
+    bytes, left-padded with zeros ([ser_be 32]); DecodeSecp256k1PrivateKey demands 32 bytes
+    and reads them back big-endian ([be_val]). *)
+Fixpoint ser_be (n : nat) (d : N) : bytes :=
+  match n with O => [] | S n' => ser_be n' (d / 256) ++ [d mod 256] end.
+Definition ser32 (d : N) : bytes := ser_be 32 d.
+Definition be_val (l : bytes) : N := fold_left (fun acc b => acc * 256 + b) l 0.
 
 Record kparams := { kp_n : Z; kp_r : Z; kp_p : Z; kp_dklen : Z }.
 
@@ -202,11 +210,11 @@ Section Keystore.
 
   (** ---- the service ---- *)
   Inductive op :=
-  | OKey (name pw : bytes) (newkey salt iv : bytes)      (* newkey/salt/iv: what the random source yields if used *)
+  | OKey (name pw : bytes) (newd : N) (salt iv : bytes)      (* newd/salt/iv: scalar of the generated key, and what rand.Reader yields, if used *)
   | OExists (name : bytes)
   | OExport (name pw : bytes) (salt iv : bytes)
   | OImport (name pw : bytes) (json : filedata) (salt iv : bytes)
-  | OImportPriv (name pw : bytes) (key : bytes) (salt iv : bytes).
+  | OImportPriv (name pw : bytes) (d : N) (salt iv : bytes).          (* d: the scalar of the key to import *)
 
   Inductive out :=
   | OutKey (k : bytes) (created : bool)
@@ -228,7 +236,8 @@ Section Keystore.
 
   Definition step (s : fs) (o : op) : fs * out :=
     match o with
-    | OKey name pw newkey salt iv =>
+    | OKey name pw newd salt iv =>
+        let newkey := ser32 newd in
         match read s (key_filename name), key_filename name with
         | RErr, _ | _, None => (s, OutErr EIO)
         | RAbsent, Some p =>
@@ -268,7 +277,8 @@ Section Keystore.
         | Err e, _ => (s, OutErr e)
         | Panic, _ => (s, OutPanic)
         end
-    | OImportPriv name pw k salt iv =>
+    | OImportPriv name pw d salt iv =>
+        let k := ser32 d in
         match svc_read s name pw, key_filename name with
         | Ok _, Some p =>
             match encrypt_key k pw salt iv with
